@@ -56,3 +56,39 @@ Definition g_bool (b : bool) : garg := GN (if b then 1%Z else 0%Z).
 Definition g_N (n : N) : garg := GN (Z.of_N n).
 Definition g_optB (o : option bytes) : garg := match o with Some b => GB b | None => GNil end.
 Definition g_listB (l : list bytes) : garg := GL (map GB l).
+
+(** Boolean equality on wire values (used by the in-Coq cross-check of the extracted runner). *)
+Fixpoint garg_eqb (a b : garg) : bool :=
+  match a, b with
+  | GN x, GN y => Z.eqb x y
+  | GB x, GB y => (fix leq (l1 l2 : list N) : bool :=
+                     match l1, l2 with
+                     | [], [] => true
+                     | u :: r1, v :: r2 => N.eqb u v && leq r1 r2
+                     | _, _ => false
+                     end) x y
+  | GNil, GNil => true
+  | GL x, GL y => (fix leq (l1 l2 : list garg) : bool :=
+                     match l1, l2 with
+                     | [], [] => true
+                     | u :: r1, v :: r2 => garg_eqb u v && leq r1 r2
+                     | _, _ => false
+                     end) x y
+  | _, _ => false
+  end.
+
+Definition obs_eqb (a b : obs) : bool := N.eqb (fst a) (fst b) && garg_eqb (snd a) (snd b).
+
+Fixpoint list_eqb {A} (eqb : A -> A -> bool) (l1 l2 : list A) : bool :=
+  match l1, l2 with
+  | [], [] => true
+  | u :: r1, v :: r2 => eqb u v && list_eqb eqb r1 r2
+  | _, _ => false
+  end.
+
+(** [agrees c cfg ops expected] : running the component inside Coq gives exactly the expected observations *)
+Definition agrees_with (c : component) (cfg : list garg) (ops : list (N * list garg)) (expected : list (list obs)) : bool :=
+  match run_history c cfg ops with
+  | None => match expected with [] => true | _ => false end
+  | Some outs => list_eqb (list_eqb obs_eqb) outs expected
+  end.
